@@ -43,7 +43,8 @@ VARIABLES
   sErrChan,   \* Streamer.errChan: 0 = nil, else the attempt whose channel it is
   result,     \* [Att -> none nil err] what Stream returned
   cause,      \* [Att -> why the parser stopped: none cancel closed handler decode connect]
-  terminal,   \* [Att -> none EOF ERR transport cancel close] reason published by the reader
+  terminal,   \* [Att -> none EOF ERR transport cancel close] why the reader left
+  pending,    \* [Att -> reason the reader is about to publish, or "none"]
   cancelledAtReturn, \* [Att -> BOOLEAN]
   hpc,        \* handler: idle | running   (called from within Stream only)
   epc,        \* Error() observer: idle | recv
@@ -51,7 +52,7 @@ VARIABLES
   eres        \* result of the first Error() call after the last return: none nil err:<reason>
 
 vars == <<att, spc, net, sock, ctxDone, rpc, held, errBuf, errClosed, evClosed, doneClosed, sErrChan,
-          result, cause, terminal, cancelledAtReturn, hpc, epc, ecalls, eres>>
+          result, cause, terminal, pending, cancelledAtReturn, hpc, epc, ecalls, eres>>
 
 Init ==
   /\ att = 0 /\ spc = "idle" /\ net = <<>> /\ sock = [a \in Att |-> "none"]
@@ -61,6 +62,7 @@ Init ==
   /\ evClosed = [a \in Att |-> FALSE] /\ doneClosed = [a \in Att |-> FALSE]
   /\ sErrChan = 0
   /\ result = [a \in Att |-> "none"] /\ cause = [a \in Att |-> "none"] /\ terminal = [a \in Att |-> "none"]
+  /\ pending = [a \in Att |-> "none"]
   /\ cancelledAtReturn = [a \in Att |-> FALSE]
   /\ hpc = "idle" /\ epc = "idle" /\ ecalls = 0 /\ eres = "none"
 
@@ -73,7 +75,7 @@ Call ==   \* Stream(ctx, handler) is called (the previous call has returned; Err
   /\ spc' = "connect"
   /\ sErrChan' = IF "noErrChanReset" \in Defects THEN sErrChan ELSE 0
   /\ ecalls' = 0 /\ eres' = "none"
-  /\ UNCHANGED <<net, sock, ctxDone, rpc, held, errBuf, errClosed, evClosed, doneClosed, result, cause, terminal, cancelledAtReturn, hpc, epc>>
+  /\ UNCHANGED <<net, sock, ctxDone, rpc, held, errBuf, errClosed, evClosed, doneClosed, result, cause, terminal, pending, cancelledAtReturn, hpc, epc>>
 
 ReturnWith(res, why) ==
   /\ result' = [result EXCEPT ![att] = res]
@@ -86,31 +88,31 @@ ConnectOk ==
   /\ spc = "connect" /\ ~ctxDone[att]
   /\ \E p \in PktSeqs : net' = p
   /\ sock' = [sock EXCEPT ![att] = "open"] /\ spc' = "set"
-  /\ UNCHANGED <<att, ctxDone, rpc, held, errBuf, errClosed, evClosed, doneClosed, sErrChan, result, cause, terminal, cancelledAtReturn, hpc, epc, ecalls, eres>>
+  /\ UNCHANGED <<att, ctxDone, rpc, held, errBuf, errClosed, evClosed, doneClosed, sErrChan, result, cause, terminal, pending, cancelledAtReturn, hpc, epc, ecalls, eres>>
 ConnectFail ==
   /\ spc = "connect"
   /\ ReturnWith("err", "connect")
-  /\ UNCHANGED <<att, net, sock, ctxDone, rpc, held, errBuf, errClosed, evClosed, doneClosed, sErrChan, terminal, hpc, epc, ecalls, eres>>
+  /\ UNCHANGED <<att, net, sock, ctxDone, rpc, held, errBuf, errClosed, evClosed, doneClosed, sErrChan, terminal, pending, hpc, epc, ecalls, eres>>
 
 \* SET @master_binlog_checksum: on failure newSlaveConnection closes the connection and Stream returns
 SendSetOk ==
   /\ spc = "set" /\ sock[att] = "open" /\ spc' = "dump"
-  /\ UNCHANGED <<att, net, sock, ctxDone, rpc, held, errBuf, errClosed, evClosed, doneClosed, sErrChan, result, cause, terminal, cancelledAtReturn, hpc, epc, ecalls, eres>>
+  /\ UNCHANGED <<att, net, sock, ctxDone, rpc, held, errBuf, errClosed, evClosed, doneClosed, sErrChan, result, cause, terminal, pending, cancelledAtReturn, hpc, epc, ecalls, eres>>
 SendSetFail ==
   /\ spc = "set"
   /\ sock' = [sock EXCEPT ![att] = "closed"] /\ doneClosed' = [doneClosed EXCEPT ![att] = TRUE]
   /\ ReturnWith("err", "connect")
-  /\ UNCHANGED <<att, net, ctxDone, rpc, held, errBuf, errClosed, evClosed, sErrChan, terminal, hpc, epc, ecalls, eres>>
+  /\ UNCHANGED <<att, net, ctxDone, rpc, held, errBuf, errClosed, evClosed, sErrChan, terminal, pending, hpc, epc, ecalls, eres>>
 
 \* COM_BINLOG_DUMP: on failure Stream returns (deferred close)
 SendDumpOk ==
   /\ spc = "dump" /\ sock[att] = "open" /\ spc' = "spawn"
-  /\ UNCHANGED <<att, net, sock, ctxDone, rpc, held, errBuf, errClosed, evClosed, doneClosed, sErrChan, result, cause, terminal, cancelledAtReturn, hpc, epc, ecalls, eres>>
+  /\ UNCHANGED <<att, net, sock, ctxDone, rpc, held, errBuf, errClosed, evClosed, doneClosed, sErrChan, result, cause, terminal, pending, cancelledAtReturn, hpc, epc, ecalls, eres>>
 SendDumpFail ==
   /\ spc = "dump"
   /\ sock' = [sock EXCEPT ![att] = "closed"] /\ doneClosed' = [doneClosed EXCEPT ![att] = TRUE]
   /\ ReturnWith("err", "connect")
-  /\ UNCHANGED <<att, net, ctxDone, rpc, held, errBuf, errClosed, evClosed, sErrChan, terminal, hpc, epc, ecalls, eres>>
+  /\ UNCHANGED <<att, net, ctxDone, rpc, held, errBuf, errClosed, evClosed, sErrChan, terminal, pending, hpc, epc, ecalls, eres>>
 
 \* the reader goroutine is started and s.errChan = conn.errChan
 Spawn ==
@@ -118,7 +120,7 @@ Spawn ==
   /\ rpc' = [rpc EXCEPT ![att] = "read"]
   /\ sErrChan' = att
   /\ spc' = "select"
-  /\ UNCHANGED <<att, net, sock, ctxDone, held, errBuf, errClosed, evClosed, doneClosed, result, cause, terminal, cancelledAtReturn, hpc, epc, ecalls, eres>>
+  /\ UNCHANGED <<att, net, sock, ctxDone, held, errBuf, errClosed, evClosed, doneClosed, result, cause, terminal, pending, cancelledAtReturn, hpc, epc, ecalls, eres>>
 
 \* deferred conn.close() + return: closes done, closes the socket (which unblocks a reader inside ReadPacket)
 CloseAndReturn(res, why) ==
@@ -135,41 +137,60 @@ ParserTakesEvent ==
        /\ IF e = "commit" THEN spc' = "handler" /\ hpc' = "running" /\ UNCHANGED <<doneClosed, sock, result, cause, cancelledAtReturn>>
           ELSE IF e = "bad" THEN CloseAndReturn("err", "decode") /\ UNCHANGED hpc
           ELSE UNCHANGED <<spc, hpc, doneClosed, sock, result, cause, cancelledAtReturn>>
-  /\ UNCHANGED <<att, net, ctxDone, errBuf, errClosed, evClosed, sErrChan, terminal, epc, ecalls, eres>>
+  /\ UNCHANGED <<att, net, ctxDone, errBuf, errClosed, evClosed, sErrChan, terminal, pending, epc, ecalls, eres>>
 
 \* select: events channel closed -> return pos, nil
 ParserSeesClosed ==
   /\ spc = "select" /\ evClosed[att]
   /\ CloseAndReturn("nil", "closed")
-  /\ UNCHANGED <<att, net, ctxDone, rpc, held, errBuf, errClosed, evClosed, sErrChan, terminal, hpc, epc, ecalls, eres>>
+  /\ UNCHANGED <<att, net, ctxDone, rpc, held, errBuf, errClosed, evClosed, sErrChan, terminal, pending, hpc, epc, ecalls, eres>>
 
 \* select: case <-ctx.Done() -> return pos, nil
 ParserSeesCtx ==
   /\ spc = "select" /\ ctxDone[att]
   /\ CloseAndReturn("nil", "cancel")
-  /\ UNCHANGED <<att, net, ctxDone, rpc, held, errBuf, errClosed, evClosed, sErrChan, terminal, hpc, epc, ecalls, eres>>
+  /\ UNCHANGED <<att, net, ctxDone, rpc, held, errBuf, errClosed, evClosed, sErrChan, terminal, pending, hpc, epc, ecalls, eres>>
 
 \* the handler returns nil: back to the loop; or an error: Stream returns it
 HandlerOk ==
   /\ spc = "handler" /\ hpc = "running"
   /\ hpc' = "idle" /\ spc' = "select"
-  /\ UNCHANGED <<att, net, sock, ctxDone, rpc, held, errBuf, errClosed, evClosed, doneClosed, sErrChan, result, cause, terminal, cancelledAtReturn, epc, ecalls, eres>>
+  /\ UNCHANGED <<att, net, sock, ctxDone, rpc, held, errBuf, errClosed, evClosed, doneClosed, sErrChan, result, cause, terminal, pending, cancelledAtReturn, epc, ecalls, eres>>
 HandlerErr ==
   /\ spc = "handler" /\ hpc = "running"
   /\ hpc' = "idle"
   /\ CloseAndReturn("err", "handler")
-  /\ UNCHANGED <<att, net, ctxDone, rpc, held, errBuf, errClosed, evClosed, sErrChan, terminal, epc, ecalls, eres>>
+  /\ UNCHANGED <<att, net, ctxDone, rpc, held, errBuf, errClosed, evClosed, sErrChan, terminal, pending, epc, ecalls, eres>>
 
 (***************************************************************************)
 (* Reader goroutine of attempt a.                                          *)
 (***************************************************************************)
-\* publish the reason, close(errChan), deferred close(eventChan), exit
+\* The reader leaves in three separately scheduled steps, in the order of the code:
+\*   s.errChan <- reason   (ReaderPublish; skipped when it leaves because the connection was closed)
+\*   close(s.errChan)      (ReaderCloseErr)
+\*   close(eventChan)      (ReaderCloseEv, the deferred call)
+\* Defect "closeEventsFirst" re-orders them: close(eventChan) first.
 ReaderExit(a, reason, publish) ==
-  /\ errBuf' = [errBuf EXCEPT ![a] = IF publish THEN Append(@, reason) ELSE @]
-  /\ errClosed' = [errClosed EXCEPT ![a] = TRUE]
-  /\ evClosed' = [evClosed EXCEPT ![a] = TRUE]
   /\ terminal' = [terminal EXCEPT ![a] = reason]
-  /\ rpc' = [rpc EXCEPT ![a] = "exit"]
+  /\ pending' = [pending EXCEPT ![a] = IF publish THEN reason ELSE "none"]
+  /\ rpc' = [rpc EXCEPT ![a] = IF "closeEventsFirst" \in Defects THEN "closeEv" ELSE "pub"]
+  /\ UNCHANGED <<errBuf, errClosed, evClosed>>
+
+ReaderPublish(a) ==
+  /\ rpc[a] = "pub"
+  /\ errBuf' = [errBuf EXCEPT ![a] = IF pending[a] # "none" THEN Append(@, pending[a]) ELSE @]
+  /\ rpc' = [rpc EXCEPT ![a] = "closeErr"]
+  /\ UNCHANGED <<att, spc, net, sock, ctxDone, held, errClosed, evClosed, doneClosed, sErrChan, result, cause, terminal, cancelledAtReturn, hpc, epc, ecalls, eres, pending>>
+ReaderCloseErr(a) ==
+  /\ rpc[a] = "closeErr"
+  /\ errClosed' = [errClosed EXCEPT ![a] = TRUE]
+  /\ rpc' = [rpc EXCEPT ![a] = IF "closeEventsFirst" \in Defects THEN "exit" ELSE "closeEv"]
+  /\ UNCHANGED <<att, spc, net, sock, ctxDone, held, errBuf, evClosed, doneClosed, sErrChan, result, cause, terminal, cancelledAtReturn, hpc, epc, ecalls, eres, pending>>
+ReaderCloseEv(a) ==
+  /\ rpc[a] = "closeEv"
+  /\ evClosed' = [evClosed EXCEPT ![a] = TRUE]
+  /\ rpc' = [rpc EXCEPT ![a] = IF "closeEventsFirst" \in Defects THEN "pub" ELSE "exit"]
+  /\ UNCHANGED <<att, spc, net, sock, ctxDone, held, errBuf, errClosed, doneClosed, sErrChan, result, cause, terminal, cancelledAtReturn, hpc, epc, ecalls, eres, pending>>
 
 \* ReadPacket returns: a packet, or an error when the connection is broken or closed
 ReaderRead(a) ==
@@ -180,7 +201,7 @@ ReaderRead(a) ==
            THEN ReaderExit(a, Head(net), TRUE) /\ UNCHANGED held
            ELSE /\ held' = [held EXCEPT ![a] = Head(net)]
                 /\ rpc' = [rpc EXCEPT ![a] = "handoff"]
-                /\ UNCHANGED <<errBuf, errClosed, evClosed, terminal>>
+                /\ UNCHANGED <<errBuf, errClosed, evClosed, terminal, pending>>
      \/ /\ sock[a] \in {"broken", "closed"}
         /\ ReaderExit(a, IF sock[a] = "broken" THEN "transport" ELSE "close", TRUE)
         /\ UNCHANGED <<net, held>>
@@ -204,12 +225,12 @@ ReaderSeesDone(a) ==
 Cancel ==   \* the caller cancels the context of the current attempt (also after Stream returned)
   /\ att > 0 /\ ~ctxDone[att]
   /\ ctxDone' = [ctxDone EXCEPT ![att] = TRUE]
-  /\ UNCHANGED <<att, spc, net, sock, rpc, held, errBuf, errClosed, evClosed, doneClosed, sErrChan, result, cause, terminal, cancelledAtReturn, hpc, epc, ecalls, eres>>
+  /\ UNCHANGED <<att, spc, net, sock, rpc, held, errBuf, errClosed, evClosed, doneClosed, sErrChan, result, cause, terminal, pending, cancelledAtReturn, hpc, epc, ecalls, eres>>
 
 Break ==    \* the master / network drops the connection (close, reset, short packet, bad sequence id)
   /\ att > 0 /\ sock[att] = "open"
   /\ sock' = [sock EXCEPT ![att] = "broken"]
-  /\ UNCHANGED <<att, spc, net, ctxDone, rpc, held, errBuf, errClosed, evClosed, doneClosed, sErrChan, result, cause, terminal, cancelledAtReturn, hpc, epc, ecalls, eres>>
+  /\ UNCHANGED <<att, spc, net, ctxDone, rpc, held, errBuf, errClosed, evClosed, doneClosed, sErrChan, result, cause, terminal, pending, cancelledAtReturn, hpc, epc, ecalls, eres>>
 
 (***************************************************************************)
 (* Error().                                                                *)
@@ -220,7 +241,7 @@ ErrorCall ==
   /\ IF sErrChan = 0 /\ "errChanNil" \notin Defects
      THEN epc' = "idle" /\ eres' = IF ecalls = 0 THEN "nil" ELSE eres
      ELSE epc' = "recv" /\ UNCHANGED eres
-  /\ UNCHANGED <<att, spc, net, sock, ctxDone, rpc, held, errBuf, errClosed, evClosed, doneClosed, sErrChan, result, cause, terminal, cancelledAtReturn, hpc>>
+  /\ UNCHANGED <<att, spc, net, sock, ctxDone, rpc, held, errBuf, errClosed, evClosed, doneClosed, sErrChan, result, cause, terminal, pending, cancelledAtReturn, hpc>>
 
 \* case err, ok := <-s.errChan
 ErrorRecv ==
@@ -233,16 +254,16 @@ ErrorRecv ==
                canc == IF "ctxAtErrorTime" \in Defects THEN ctxDone[att] ELSE cancelledAtReturn[att]
                v == IF canc \/ r \in {"cancel", "EOF"} THEN "nil" ELSE "err"
            IN eres' = IF ecalls = 1 THEN v ELSE eres
-     \/ /\ errBuf[c] = <<>> /\ errClosed[c]
+     \/ /\ errBuf[c] = <<>> /\ (errClosed[c] \/ "errorNonBlocking" \in Defects)     \* defect: a `default:` case in Error()
         /\ eres' = IF ecalls = 1 THEN "nil" ELSE eres
         /\ UNCHANGED errBuf
   /\ epc' = "idle"
-  /\ UNCHANGED <<att, spc, net, sock, ctxDone, rpc, held, errClosed, evClosed, doneClosed, sErrChan, result, cause, terminal, cancelledAtReturn, hpc, ecalls>>
+  /\ UNCHANGED <<att, spc, net, sock, ctxDone, rpc, held, errClosed, evClosed, doneClosed, sErrChan, result, cause, terminal, pending, cancelledAtReturn, hpc, ecalls>>
 
 Next ==
   \/ Call \/ ConnectOk \/ ConnectFail \/ SendSetOk \/ SendSetFail \/ SendDumpOk \/ SendDumpFail \/ Spawn
   \/ ParserTakesEvent \/ ParserSeesClosed \/ ParserSeesCtx \/ HandlerOk \/ HandlerErr
-  \/ \E a \in Att : ReaderRead(a) \/ ReaderSeesCtx(a) \/ ReaderSeesDone(a)
+  \/ \E a \in Att : ReaderRead(a) \/ ReaderSeesCtx(a) \/ ReaderSeesDone(a) \/ ReaderPublish(a) \/ ReaderCloseErr(a) \/ ReaderCloseEv(a)
   \/ Cancel \/ Break \/ ErrorCall \/ ErrorRecv
 
 \* library steps and the handler's return are fair; the environment (Call, Cancel, Break, ErrorCall, connect
@@ -252,6 +273,7 @@ LibFair ==
   /\ WF_vars(Spawn) /\ WF_vars(ParserTakesEvent) /\ WF_vars(ParserSeesClosed) /\ WF_vars(ParserSeesCtx)
   /\ WF_vars(HandlerOk \/ HandlerErr) /\ WF_vars(ErrorRecv)
   /\ \A a \in Att : WF_vars(ReaderRead(a)) /\ WF_vars(ReaderSeesCtx(a)) /\ WF_vars(ReaderSeesDone(a))
+                    /\ WF_vars(ReaderPublish(a)) /\ WF_vars(ReaderCloseErr(a)) /\ WF_vars(ReaderCloseEv(a))
 
 Spec == Init /\ [][Next]_vars /\ LibFair
 
